@@ -46,7 +46,9 @@ static inline void ring_fixup_tail(struct ring_head *r)
 
 static inline int ring_fixup_index(struct ring_head *r, int index)
 {
-    return index % r->size;
+    int size = (int)r->size;
+    int rem = index % size;
+    return rem < 0 ? rem + size : rem;
 }
 
 __ALWAYS_INLINE static inline int ring_empty(struct ring_head *r)
